@@ -181,6 +181,20 @@ class Unit:
         self.rule_hits.append((name, count))
         return count
 
+    def expand_derive_default(self, struct_name):
+        """R27: `#[derive(.., Default, ..)]` on a struct with named fields is replaced by the impl
+        rustc's derive generates (every field Default::default()), so that it can carry a contract."""
+        m = re.search(r'#\[derive\(([^)]*)\)\]\s*pub struct ' + re.escape(struct_name) + r'\s*\{([^}]*)\}', self.text)
+        if not m or 'Default' not in m.group(1):
+            raise ExtractError('unit %s: derive(Default) on %s not found' % (self.name, struct_name))
+        derives = [d.strip() for d in m.group(1).split(',') if d.strip() and d.strip() != 'Default']
+        fields = re.findall(r'(?m)^\s*(?:pub(?:\([a-z]+\))?\s+)?(\w+)\s*:', re.sub(r'//[^\n]*', '', m.group(2)))
+        impl = '\nimpl Default for %s {\n    fn default() -> %s {\n        %s { %s }\n    }\n}\n' % (
+            struct_name, struct_name, struct_name, ', '.join('%s: Default::default()' % f for f in fields))
+        new = self.text[m.start():m.end()].replace('#[derive(%s)]' % m.group(1), '#[derive(%s)]' % ', '.join(derives), 1) + impl
+        self.text = self.text[:m.start()] + new + self.text[m.end():]
+        self.rule_hits.append(('R27:derive-default-' + struct_name, 1))
+
     # ------------------------------------------------------------ fn lookup
     def _fn_span(self, fnref):
         """fnref = 'fn_name' (free fn, unique) or ('impl header', 'fn_name').
@@ -292,6 +306,42 @@ class Unit:
         ls = self.text.rfind('\n', 0, a) + 1
         self.text = self.text[:ls] + text + '\n' + self.text[ls:]
 
+    def closure(self, fnref, params_regex, typed_params, ret, spec, nth=0, count=1):
+        """R18: give a closure literal a contract.  Only the header is rewritten
+        (`|x|` -> `|x: T| -> (r: R) ensures ...`), the body is kept verbatim and, when it is a bare
+        expression, wrapped in braces (Verus requires a block after a closure contract)."""
+        s, p, bo, bc = self._fn_span(fnref)
+        ms = list(re.finditer(params_regex, s.code[bo:bc]))
+        if len(ms) != count:
+            raise ExtractError('unit %s: closure %r in %s matched %d times, expected %d' % (self.name, params_regex, fnref, len(ms), count))
+        m = ms[nth]
+        a, b = bo + m.start(), bo + m.end()
+        # body start
+        i = b
+        while self.text[i].isspace():
+            i += 1
+        if s.code[i] == '{':
+            j = s.match_close(i) + 1
+            body = self.text[i:j]
+        else:
+            depth = 0
+            j = i
+            while j < bc:
+                ch = s.code[j]
+                if ch in '([{':
+                    depth += 1
+                elif ch in ')]}':
+                    if depth == 0:
+                        break
+                    depth -= 1
+                elif ch == ',' and depth == 0:
+                    break
+                j += 1
+            body = '{ ' + self.text[i:j].rstrip() + ' }'
+        header = '|%s| -> (%s) %s ' % (typed_params, ret, spec)
+        self.text = self.text[:a] + header + body + self.text[j:]
+        self.rule_hits.append(('R18:closure@' + self.fnkey(fnref), 1))
+
     def replace_in(self, fnref, name, pattern, repl, expect=1):
         s, p, bo, bc = self._fn_span(fnref)
         seg, n = re.subn(pattern, repl, self.text[bo:bc + 1], flags=re.S)
@@ -304,10 +354,17 @@ class Unit:
     def finish(self, header, footer='} // verus!\nfn main() {}\n'):
         self.text = header + self.text + footer
 
-    def fn_table(self):
+    def fn_table(self, text=None):
         """[(first_line, last_line, key)] for every fn with a body in the
         final text (keys: 'impl header::fn' or 'fn')."""
-        s = Src('<unit %s>' % self.name, self.text)
+        s = Src('<unit %s>' % self.name, self.text if text is None else text)
+        if text is not None:
+            saved = self.text
+            self.text = text
+            try:
+                return self.fn_table()
+            finally:
+                self.text = saved
         table = []
         impls = []
         for m in re.finditer(r'(?m)^\s*(?:pub\s+)?(?:unsafe\s+)?impl(?![A-Za-z0-9_])', s.code):
